@@ -587,3 +587,14 @@ Proof.
   destruct Hc as [->|[->|[->|[->|[->| ->]]]]]; vm_compute in H; inversion H; subst; vm_compute; intuition discriminate.
 Qed.
 
+
+(* the same, without mentioning the pure form of FindNextMatch *)
+Lemma next_advances_stmt :
+  forall rtl len attempt, forward rtl len attempt ->
+  forall m, wfm rtl len m ->
+  exists r, find_next_match rtl len attempt (dflt_fuel len) m = Ok r /\
+            forall m', r = Some m' -> wfm rtl len m' /\ follows rtl m m'.
+Proof.
+  intros rtl len attempt Hfw m Hw. destruct (next_advances_follows rtl len attempt Hfw m Hw) as [H1 H2].
+  exists (next_p rtl len attempt m). split; assumption.
+Qed.
